@@ -1,6 +1,8 @@
 import RattrDriver.JsonUtil
+import RattrDriver.C20
 import RattrModel.Imports
 import RattrModel.Spec.Allowed
+import RattrModel.FollowConfig
 
 namespace Rattr.Driver.C12
 open Lean Rattr Rattr.Driver Rattr.Imports
@@ -45,6 +47,36 @@ def allowedJson : Resolve.Allowed String → Json
 def outcomeStr : Out String String → String
   | .done _ => "done" | .fatal _ => "fatal" | .crash _ => "crash" | .outOfFuel _ => "outOfFuel"
 
+/-- Optional `config` part of op `imports`: the model of the configuration stage
+(`Cli.parseArguments` + `Arguments.follow_imports`) on the case's TOML files and argv, and what the
+theorem `C12_configured_level` predicts from what each source SAYS (`says.cli` / `says.toml`). -/
+def handleConfig (j : Json) : R Json := do
+  let argv := (← asStrList (← field j "argv")).map C20.textOf
+  let world ← C20.parseWorld (← field j "world")
+  let out := Cli.parseArguments world none argv true
+  let says := fieldD j "says" Json.null
+  let theoremLevel : Json ← match says with
+    | .null => pure Json.null
+    | s => do
+      let cli ← (← asArr (← field s "cli")).mapM fun x => do pure (Cli.Val.int (← asInt x))
+      let toml ← match fieldD s "toml" .null with
+        | .null => pure none
+        | t => do pure (some (Cli.Val.int (← asInt t)))
+      pure (C20.valJson (Spec.effective .scalar (.int 1) toml cli))
+  match out with
+  | .ok ns =>
+    let lv := Dict.get? ns FollowConfig.levelDest
+    let fl := lv.bind FollowConfig.flagsOfVal
+    return Json.mkObj [
+      ("outcome", "ok"),
+      ("level", match lv with | some v => C20.valJson v | none => .null),
+      ("patterns", jStrList ((FollowConfig.patternsOfNs ns).map C20.textStr)),
+      ("flags", match fl with
+        | some f => Json.mkObj [("loc", f.loc), ("pip", f.pip), ("stdlib", f.stdlib)]
+        | none => .null),
+      ("theoremLevel", theoremLevel)]
+  | o => return Json.mkObj [("outcome", "error"), ("detail", C20.outcomeJson o), ("theoremLevel", theoremLevel)]
+
 /-- op `imports`: the model of the import-following stage, the executable spec closure and the
 decidable hypotheses of the C12 theorems, on one module graph. `flags` are the bits the running
 implementation reports (`Arguments.follow_*_imports`); the spec uses the documented meaning of
@@ -59,6 +91,16 @@ def handle (payload : Json) : R Json := do
     match i.target with
     | some n => if (lookup g n).isNone then throw s!"graph not closed: {n}"
     | none => pure ()
+  -- real file per origin (os.path.realpath, computed by the harness): optional
+  let reals : List (String × String) := (← (← asArr (← field payload "modules")).mapM fun mj => do
+    let o ← asOptStr (← field mj "origin")
+    let r ← asOptStr (fieldD mj "real" Json.null)
+    pure (match o, r with | some o, some r => [(o, r)] | _, _ => [])).flatten
+  let haveReal := !reals.isEmpty
+  let real : String → String := fun o => match reals.find? (fun p => p.1 == o) with | some p => p.2 | none => o
+  let config ← match fieldD payload "config" Json.null with
+    | .null => pure Json.null
+    | c => handleConfig c
   let bound := fuelBound g target
   let fuel := match (fieldD payload "fuel" Json.null).getNat? with
     | .ok n => n
@@ -80,7 +122,10 @@ def handle (payload : Json) : R Json := do
     ("permitted", jStrList ((g.filter (Spec.permitted sfl)).map (·.name))),
     ("classes", Json.mkObj (g.map fun m => (m.name, Json.str (clsStr m.cls)))),
     ("resolve", jList (target.map fun i => allowedJson (Resolve.importAllowed g fl keys i))),
+    ("config", config),
+    ("realNodup", Json.bool (decide (realFiles g real st.analysed).Nodup)),
     ("hyps", Json.mkObj [
+      ("originsCanonical", if haveReal then Json.bool (Spec.originsCanonicalB g real) else Json.null),
       ("flagsOK", Json.bool (decide (Spec.FlagsOK fl))),
       ("originInjective", Json.bool (decide (Spec.OriginInjective g))),
       ("noOverBlacklist", Json.bool (decide (Spec.NoOverBlacklist g))),
